@@ -19,9 +19,9 @@ NAN = ('ext', 'NAN')
 def check(ctx):
     for col, qn in (('Bid', 'CSVDailyBarDataSource.get_bid'), ('Ask', 'CSVDailyBarDataSource.get_ask')):
         accessor(ctx, qn, col)
-    converter(ctx)
-    confinement(ctx)
-    handler(ctx)
+    ctx.sub(converter)
+    ctx.sub(confinement)
+    ctx.sub(handler)
 
 
 # --------------------------------------------------------------------------------------------- S1, S2
